@@ -32,6 +32,8 @@ func checkC08(p *Program, r *Reporter) {
 	r.Rule("E3-D3", "pointer result of a library function documented to return nil (etree lookups): tested before use", 1)
 	r.Rule("E3-C2", "library functions that panic on bad input (httptest.NewRequest, MustCompile, template.Must) get no request-controlled argument", 0)
 	e.classLib("E3-D3", "E3-C2", e.fns)
+	r.Rule("E3-D4", "function values called straight out of a map lookup: no entry of that map is ever deleted, or the value is tested", 1)
+	e.classD4("E3-D4", e.fns)
 	checkCursorProgress(p, r, e.fns, "E3-F1", 1)
 	checkChannelOps(p, r, "E3-F2", 3)
 }
